@@ -114,6 +114,16 @@ Theorem C08_step_count_exists : forall x a, 0 < a -> 0 < x -> exists n, INR n * 
 Proof. exact step_count_exists. Qed.
 Print Assumptions C08_step_count_exists.
 
+(* (11) the fuzz of (1) is the advertised one: the constants in reb_check_exit (regenerated from the C text on every
+   run; the binary64 instance compared with the library uses these regenerated values) are 1e-12 relative, with the
+   absolute fallback 1e-12 below 1e-200 *)
+From Coq Require Import String.
+From RV Require Import Gen.C08Consts.
+Theorem C08_fuzz_constants_are_the_advertised :
+  c08_rel_text = "1e-12"%string /\ c08_floor_text = "1e-200"%string /\ c08_abs_text = "1e-12"%string /\
+  c08_abs = c08_rel.
+Proof. repeat split; reflexivity. Qed.
+
 (* non-vacuity: concrete numbers meeting the hypotheses of (4) and (5) *)
 Example C08_hypotheses_inhabited :
   (0 < 1/4 /\ 0 + INR 3 * (1/4) < 9/10 <= 0 + (INR 3 + 1) * (1/4)) /\
